@@ -395,35 +395,39 @@ def no_equation_is_lost_before_solving(ctx):
     ctx.check(got == want, '_prepare_sympy', 'every well-formed equation is kept, in order', '_prepare_sympy differs from its confirmed behaviour: %s' % SB.diff(got, want)[:600], f, f.node)
 
 
-@rule('C12.j', min_instances=3)
-def markers_are_restored_longest_first(ctx):
-    """solve and its helpers rename named variables to the markers _0, _1, ... and rename them back in a nested restore(); the markers are replaced textually, so _10 has to be restored before _1 (as replace_variables substitutes in descending order on the way in): every restore loop runs over the markers in descending index order, not in order of appearance"""
+def _single_pass_restore(fn, names_param):
+    """does fn restore the markers with ONE regular-expression substitution whose replacement is computed per match (a function of the match
+    that indexes the given names)?  Returns the call node or None"""
+    for c in ast.walk(fn):
+        if isinstance(c, ast.Call) and isinstance(c.func, ast.Attribute) and c.func.attr == 'sub' and len(c.args) >= 3 and isinstance(c.args[0], ast.Constant) \
+                and isinstance(c.args[0].value, str) and isinstance(c.args[1], ast.Lambda):
+            pat = c.args[0].value
+            lam = c.args[1]
+            idx = [x for x in ast.walk(lam.body) if isinstance(x, ast.Subscript) and isinstance(x.value, ast.Name) and x.value.id == names_param]
+            inloop = parent(c)
+            while inloop is not None and not isinstance(inloop, (ast.For, ast.While, ast.FunctionDef)):
+                inloop = parent(inloop)
+            if '_' in pat and ('[0-9]' in pat or '\\d' in pat) and idx and isinstance(inloop, ast.FunctionDef):
+                return c
+    return None
+
+
+@rule('C12.j', min_instances=4)
+def markers_are_restored_in_one_pass(ctx):
+    """solve and its helpers rename named variables to the markers _0, _1, ... and rename them back in a nested restore(); replace_variables does the same for a list of new names. Restoring marker by marker with str.replace re-scans text that has already been restored: _1 is found inside _10 (fixed once by restoring in descending order, repair 0ff0759) and inside a restored NAME such as a_1 (`q = p/2 - aq/2`), and with 11 or more names replace_variables turned `b + k` into `B + B0`. Every restore therefore substitutes all markers in a single regular-expression pass whose replacement is looked up per match - nothing is scanned twice"""
     m = ctx.model.modules['mystic._symbolic']
     fs = [fi for q, fi in sorted(m.funcs.items()) if fi.name == 'restore' and fi.parent is not None]
     ctx.need(len(fs) >= 3, 'expected >= 3 nested restore() helpers in _symbolic, found %d' % len(fs))
-    for fi in fs:
+    todo = [(fi, fi.args()[0]) for fi in fs] + [(ctx.func('mystic.symbolic:replace_variables'), 'markers')]
+    for fi, names_param in todo:
         ctx.touch(fi)
-        loops = [n for n in walk_no_nested(fi.node) if isinstance(n, ast.For)]
-        ctx.need(loops, '%s: replacement loop not found' % fi.qualname)
-        lp = loops[0]
-        reps = calls_where(lp, lambda c: isinstance(c.func, ast.Attribute) and c.func.attr == 'replace', include_lambda=False)
-        ctx.need(reps, '%s: no textual replacement in the loop' % fi.qualname)
-        it = T.simp(T.term(lp.iter))
-        shown = T.show(it)
-        # accepted: sorted(..., key=<decreasing in the index>) / sorted(..., reverse=True) / argsort(...)[::-1]
-        descending = False
-        if it[0] == 'call' and T.show(it[1]) == 'sorted':
-            kws = dict(it[3])
-            keyf = kws.get('key')
-            rev = kws.get('reverse') == ('const', True)
-            neg_key = keyf is not None and keyf[0] == 'lambda' and T.is_poly(keyf[3]) and any(c < 0 for mono, c in keyf[3][1]) and 'indices' in T.show(keyf[3])
-            pos_key = keyf is not None and 'indices' in T.show(keyf) and not neg_key
-            descending = neg_key or (rev and pos_key) or (rev and keyf is None and 'indices' in shown)
-        elif 'argsort' in shown and shown.rstrip(')').endswith('[::-1]'):
-            descending = True
-        ctx.check(descending, '%s#order' % fi.qualname.replace('.restore', '') + '.restore', 'markers restored in descending index order',
-                  '%s restores the markers in the order %s: when _1 comes before _10 the text of _10 has already been rewritten (11 or more named variables give a wrong solved form)'
-                  % (fi.qualname, shown[:70]), fi, lp)
+        one = _single_pass_restore(fi.node, names_param)
+        loops = [n for n in walk_no_nested(fi.node) if isinstance(n, ast.For) and
+                 calls_where(n, lambda c: isinstance(c.func, ast.Attribute) and c.func.attr == 'replace' and c.args and names_param in unparse(c), include_lambda=False)]
+        ctx.need(one is not None or loops, '%s: neither a single-pass substitution nor a marker-by-marker loop is recognised' % fi.qualname)
+        ctx.check(one is not None and not loops, '%s#single-pass' % fi.qualname, 'all markers substituted in one pass',
+                  '%s restores the markers one after the other with str.replace (%s): text restored by an earlier step is scanned again, so a marker is also found inside a longer marker or inside '
+                  'a restored name (_1 in _10, _1 in a_1)' % (fi.qualname, ' '.join(unparse(loops[0].iter).split())[:60] if loops else ''), fi, loops[0] if loops else fi.node)
 
 
 def _fold_pattern(e, names):
